@@ -282,7 +282,16 @@ func c18One(c *Ctx, req *ir.Request, tags []string) {
 			for _, g := range rePathVar.FindAllStringSubmatch(rt.Template, -1) {
 				tv = append(tv, g[1])
 			}
-			if !sameStrings(tv, rt.PathVars) || hasDupStr(tv) {
+			// the model declares each variable of the template once, in order of first occurrence
+			var uniq []string
+			seenV := map[string]bool{}
+			for _, v := range tv {
+				if !seenV[v] {
+					seenV[v] = true
+					uniq = append(uniq, v)
+				}
+			}
+			if !sameStrings(uniq, rt.PathVars) {
 				implPathOK = false
 			}
 		}
